@@ -1,4 +1,7 @@
 /*
+ * STATUS: not linked by any group at present (readpass_file with the real 2048-byte buffer still exceeded 16 GB with it;
+ * the group in harness/C15/file_readpass.c uses a scaled buffer and models/libc_string.c instead).  Kept for a later round.
+ *
  * models/io_bigstr.c -- assumed contracts (G6, C11 7.24) of strlen / strcspn / strchr / strcmp / strdup for callers
  * whose buffers are too large for the loop models of models/libc_string.c (readpass_file: 2048 bytes, aws_readkeys:
  * 1024): the result is specified logically instead of being computed by an unwound loop.
